@@ -98,6 +98,11 @@ inductive St
   | fold2                     -- after CR LF, expecting SP / HT  (822)
   deriving DecidableEq, Repr
 
+/-- the RFC 5322 blank rule at an unescaped byte `b` of quoted content: refused when `b` is a blank and
+neither raw neighbour is a DQUOTE or a blank -/
+def blocked (m : LMode) (prev b : Nat) (next : Option Nat) : Bool :=
+  m == .m5322 && blank b && !wsq prev && !(match next with | some n => wsq n | none => false)
+
 /-- one step; `next` is the following byte, if any (needed by the 5322 blank rule only) -/
 def stepSt (m : LMode) : St → Nat → Option Nat → Option St
   | .wordStart, b, _ => if b == 34 then some (.inQuote 34) else if atext m b then some .inAtom else none
@@ -108,12 +113,11 @@ def stepSt (m : LMode) : St → Nat → Option Nat → Option St
     else if b == 92 then some .inPair
     else if m == .m822 && b == 13 then some .fold1
     else if okItem m (.ch b) then
-      if m == .m5322 && blank b && !wsq prev && !(match next with | some n => wsq n | none => false) then none
-      else some (.inQuote b)
+      if blocked m prev b next then none else some (.inQuote b)
     else none
   | .inPair, b, _ => if okItem m (.pair b) then some (.inQuote b) else none
-  | .fold1, b, _ => if b == 10 then some .fold2 else none
-  | .fold2, b, _ => if b == 32 || b == 9 then some (.inQuote b) else none
+  | .fold1, b, _ => if m == .m822 && b == 10 then some .fold2 else none
+  | .fold2, b, _ => if m == .m822 && (b == 32 || b == 9) then some (.inQuote b) else none
 
 def runFrom (m : LMode) : St → List Nat → Bool
   | st, [] => st == .inAtom || st == .afterQuote
